@@ -271,9 +271,9 @@ static void oracle_C11_growth(const Case &c, vf::Stats &st) {
   const std::string &src = c.files.at("growth");
   bool geometric = src.find("$0 , $0") != std::string::npos;
   size_t want = geometric ? (size_t)(6ULL * (1ULL << c.budget) - 3) : (size_t)(4 + 96ULL * c.budget);  // incl. the EOF token
-  if (src.find("AS a ENDDEF\na") != std::string::npos && src.find("DEFINE b") == std::string::npos) want = 2;       // a -> a
-  else if (src.find("AS a b ENDDEF") != std::string::npos) want = 2 + (size_t)c.budget;                             // a -> a b
-  else if (src.find("DEFINE b AS a") != std::string::npos) want = 4;                                                // a <-> b
+  if (src.find("a AS a ENDDEF\na") != std::string::npos) want = 2;                                 // a -> a
+  else if (src.find("a AS a b ENDDEF") != std::string::npos) want = 2 + (size_t)c.budget;           // a -> a b
+  else if (src.find("b AS a ENDDEF") != std::string::npos) want = 4;                                // a <-> b
   st.nontrivial.insert(c.hash()); st.add("budget_exhausted"); st.max("tokens_after_expansion", (long long)got); st.outcomes.insert(vf::mix(got * 2 + err));
   if (got != want) { st.violation(c.key(), "after " + std::to_string(c.budget) + " rewriting steps the stream has " + std::to_string(got) + " tokens, " + std::to_string(want) + " expected (each step " + (geometric ? "doubles the slot" : "adds 96 tokens") + ")", c.json()); return; }
   if (!err) st.violation(c.key(), "rewriting was still possible after " + std::to_string(c.budget) + " steps (" + std::to_string(got) + " tokens) but no too-many-substitutions error was reported", c.json());
@@ -292,8 +292,8 @@ static Level fam_budget(int maxstream, int maxbudget) {
 // compile() with self-reproducing sets: the unfinished expansion must not be passed on as correct
 static Level fam_compile_divergent() {
   return {"compile() with self-reproducing macro sets (budget 1024)", [=](const CB &cb) {
-            for (auto d : {"DEFINE a AS a ENDDEF", "DEFINE a AS b ENDDEF DEFINE b AS a ENDDEF", "DEFINE x0 := 1 AS x0 := 1 ENDDEF", "DEFINE PRIO 3 a AS a ENDDEF DEFINE a AS x0 := 1 ENDDEF"})
-              for (auto s : {"a", "x0 := 1", "x0 := 1 ; a"}) cb(mk(d, s, 1024));
+            for (auto d : {"DEFINE a AS a ENDDEF", "DEFINE a AS b ENDDEF DEFINE b AS a ENDDEF", "DEFINE x0 := 1 AS x0 := 1 ENDDEF", "DEFINE PRIO 3 a AS a ENDDEF DEFINE a AS x0 := 1 ENDDEF", "DEFINE PRIO 1000000 a AS a ENDDEF", "DEFINE PRIO 2000000 a AS b ENDDEF DEFINE PRIO 1000000 b AS a ENDDEF", "DEFINE more AS x0 := x0 + 1 ; more ENDDEF"})
+              for (auto s : {"a", "x0 := 1", "x0 := 1 ; a", "more"}) cb(mk(d, s, 1024));
           }};
 }
 static void oracle_C11_compile(const Case &c, vf::Stats &st) {
@@ -362,6 +362,12 @@ static Level fam_pattern_ladder(int N) {
 }
 static Level fam_budget_ladder() {
   return {"budget ladder 1..1024 on non-growing and slowly growing self-reproducing sets", [=](const CB &cb) {
+            // the same at the priority of the built-in operator macros and around it (small budgets)
+            for (std::string pr : {"PRIO 999999 ", "PRIO 1000000 ", "PRIO 1000001 ", "PRIO 2000000 "}) for (int b : {1, 3, 8}) {
+              { Case c = mk("DEFINE " + pr + "a AS a ENDDEF", "a", b); c.main = "growth"; c.files["growth"] = c.files["main"]; c.files.erase("main"); cb(c); }
+              { Case c = mk("DEFINE " + pr + "a AS b ENDDEF DEFINE PRIO 1000000 b AS a ENDDEF", "x a y", b); c.main = "growth"; c.files["growth"] = c.files["main"]; c.files.erase("main"); cb(c); }
+              { Case c = mk("DEFINE " + pr + "a AS a b ENDDEF", "a", b); c.main = "growth"; c.files["growth"] = c.files["main"]; c.files.erase("main"); cb(c); }
+            }
             for (int b : {1, 2, 3, 7, 8, 9, 15, 16, 17, 31, 32, 33, 63, 64, 65, 127, 128, 255, 256, 257, 511, 1023, 1024}) {
               { Case c = mk("DEFINE a AS a ENDDEF", "a", b); c.main = "growth"; c.files["growth"] = c.files["main"]; c.files.erase("main"); cb(c); }
               { Case c = mk("DEFINE a AS a b ENDDEF", "a", b); c.main = "growth"; c.files["growth"] = c.files["main"]; c.files.erase("main"); cb(c); }
@@ -371,7 +377,7 @@ static Level fam_budget_ladder() {
 
 int main(int argc, char **argv) {
   drv::Args args = drv::Args::parse(argc, argv); bool T = args.thorough();
-  std::vector<Level> L; std::function<void(const Case &, vf::Stats &)> o; double limit = 60;
+  std::vector<Level> L; std::function<void(const Case &, vf::Stats &)> o; double limit = 30;
   if (args.prop == "C09" && args.part == "large") { o = oracle_C09; g_singlestep = false; L = {fam_large(false)}; limit = 120; }
   else if (args.prop == "C09") { o = oracle_C09; L = {fam_streams(3, false), fam_large(false), fam_streams(4, false)}; if (T) L.push_back(fam_large(true)); if (T) { L.push_back(fam_streams(5, false)); L.push_back(fam_streams(6, true)); } }
   else if (args.prop == "C10") { o = oracle_C10; L = {fam_nestings(1, 3), fam_nestings(2, 2)}; if (T) { L.push_back(fam_nestings(2, 3)); L.push_back(fam_nestings(3, 2)); } }
